@@ -242,7 +242,7 @@ fn main() {
     rep.note("exhaustive", json!(true));
     let env = Env { plan: FaultPlan::new(), notif: CountingNotifier::default(), cap: 4 };
     let mplan = FaultPlan::new();
-    let n = cli.cases(3_000, 100_000);
+    let n = cli.cases(30_000, 300_000);
     for idx in cli.index_range(n) {
         let mut rng = Rng::for_case(cli.seed, cli.shard, idx);
         let dspec = gen_spec(&mut rng, 1);
